@@ -659,7 +659,7 @@ def execute(trace, keep_log=False, collect=True):
 OPS = ["fwd", "unfwd", "sink", "source", "get", "send", "spin", "open", "close", "openall",
        "closeall", "peer_send", "inject", "idle", "peer_drain"]
 BASE_W = {"fwd": 3.0, "unfwd": 1.6, "sink": 1.6, "source": 1.0, "get": 4.0, "send": 0.8, "spin": 2.0,
-          "open": 0.7, "close": 0.7, "openall": 0.3, "closeall": 0.2, "peer_send": 3.0, "inject": 3.0,
+          "open": 0.7, "close": 0.5, "openall": 0.3, "closeall": 0.2, "peer_send": 3.0, "inject": 3.0,
           "idle": 0.6, "peer_drain": 0.1}
 
 
@@ -741,6 +741,20 @@ def gen_trace(seed):
             return UNKNOWN
         return ro.choice(hubs[h]["eps"])["n"]
 
+    # the generator's rough idea of which endpoints have something queued, so that most polls meet data
+    pending = [dict((e["n"], 0) for e in hc["eps"]) for hc in hubs]
+    rx_owner = dict((e["rx"], (h, e["n"])) for h, hc in enumerate(hubs) for e in hc["eps"] if e["kind"] == "udp")
+
+    def pick_poll(h):
+        if ro.random() < p_unknown:
+            return UNKNOWN
+        ready = [n for n, c in pending[h].items() if c > 0]
+        if ready and ro.random() < 0.75:
+            n = ro.choice(ready)
+            pending[h][n] -= 1
+            return n
+        return ro.choice(hubs[h]["eps"])["n"]
+
     def fates(k):
         if fault_mode not in ("net", "both"):
             return None
@@ -758,7 +772,7 @@ def gen_trace(seed):
                 out.append({"k": "drop"})
         return out
 
-    if ro.random() < 0.8:
+    if ro.random() < 0.9:
         for h in range(n_hubs):
             steps.append({"op": "openall", "h": h})
     while len(steps) < length:
@@ -772,7 +786,7 @@ def gen_trace(seed):
             st["n"] = pick_name(h)
             st["hid"] = None if ro.random() < 0.05 else ro.randrange(3)
         elif op == "get":
-            st["n"] = pick_name(h)
+            st["n"] = pick_poll(h)
             f = fates(2)
             if f:
                 st["fates"] = f
@@ -783,6 +797,8 @@ def gen_trace(seed):
             if f:
                 st["fates"] = f
         elif op == "spin":
+            for n_ in pending[h]:
+                pending[h][n_] = max(0, pending[h][n_] - 1)
             st["k"] = pick_weighted(ro, [(0, 0.3), (1, 4.0), (2, 2.0), (3, 1.0), (5, 0.3)])
             f = fates(4)
             if f:
@@ -794,6 +810,7 @@ def gen_trace(seed):
             if not rxs:
                 continue
             st["port"] = ro.choice(rxs)
+            pending[h][rx_owner[st["port"]][1]] += 1
             if peers:
                 st["p"] = ro.choice(peers)["n"]
             st["tok"] = newtok()
@@ -813,6 +830,7 @@ def gen_trace(seed):
             if not mems:
                 continue
             st["n"] = ro.choice(mems)
+            pending[h][st["n"]] += 1
             st["tok"] = newtok()
             if ro.random() < 0.2:
                 s2 = dict(st)
@@ -976,8 +994,8 @@ def signature(trace, violation):
 LEVEL = "fault_enumeration"
 HAS_CLOCK = True
 TIERS = {
-    "quick": {"runs": 24000, "wall": 75, "chunk": 250, "det_sample": 96, "min_wall": 40.0},
-    "thorough": {"runs": 600000, "wall": 780, "chunk": 500, "det_sample": 192, "min_wall": 120.0},
+    "quick": {"runs": 80000, "wall": 75, "chunk": 400, "det_sample": 96, "min_wall": 40.0},
+    "thorough": {"runs": 3000000, "wall": 780, "chunk": 1000, "det_sample": 192, "min_wall": 120.0},
 }
 SWEEP_CAP = 24
 RULE = ("Seeded generation of router histories (1-2 hubs, 1-4 endpoints each, in-memory doubles and real UDPObjects "
